@@ -148,6 +148,11 @@ struct vtag<std::vector<unsigned>>
   static constexpr u64 value = 1006;
 };
 template <>
+struct vtag<std::vector<fcppt::tuple::object<fcppt::optional::object<fcppt::unit>, char>>>
+{
+  static constexpr u64 value = 1204;
+};
+template <>
 struct vtag<fcppt::optional::object<char>>
 {
   static constexpr u64 value = 1007;
@@ -642,10 +647,14 @@ inline refres run_node(refctx &c, node const &nd, int const skip)
 
 // ------------------------------------------------------------------ the comparison, shared by every grammar
 template <typename Parser, typename Skipper>
-void check(Parser const &parser, Skipper const &skipper, node const *const g, int const root, int const skiproot, unsigned const n)
+void check(
+    Parser const &parser, Skipper const &skipper, node const *const g, int const root, int const skiproot, unsigned const n,
+    void (*const precondition)(input const &) = nullptr)
 {
   input in;
   fresh_input(in, n);
+  if (precondition != nullptr)
+    precondition(in); // restricts the input SHAPE of a few thorough harnesses (documented there)
   arr_stream s{in.b, n};
   auto const r{fcppt::parse::phrase_parse(parser, s, skipper)};
 
